@@ -9,6 +9,7 @@ import (
 	"fmt"
 	"os"
 	"strconv"
+	"time"
 
 	"verif/internal/core"
 )
@@ -99,6 +100,12 @@ func main() {
 		os.Exit(2)
 	}
 	run := core.NewRun(*prop, *tier, seed)
+	run.Floor = pd.floor
+	if e := os.Getenv("VERIF_WATCHDOG_SECONDS"); e != "" {
+		if n, err := strconv.Atoi(e); err == nil && n > 0 {
+			core.WatchdogLimit = time.Duration(n) * time.Second
+		}
+	}
 	pd.run(run)
 	os.Exit(run.Finish(pd.floor))
 }
